@@ -300,7 +300,19 @@ def rule_SH(run: Run) -> RuleResult:
                                 return pol
                     return None
             return None
-        ok = bool(with_e) and bool(without) and all(cond_of(p) is False for p in with_e) and all(cond_of(p) is True for p in without)
+        def other_switch(p):
+            """The path skips the effect because of a field of the object (a per-object switch), decided the other way on
+            every path that applies the effect."""
+            from .interp import Frame
+            from .rules_agree import _about_object
+            mine = {k: v for k, v in Frame.atoms(p.conds).items() if _about_object(k) and "Child(" in k and "elem(" not in k and "[*]" not in k}
+            for k, v in mine.items():
+                theirs = [Frame.atoms(q.conds).get(k) for q in with_e]
+                if theirs and all(t is not None and t != v for t in theirs):
+                    return True
+            return False
+        ok = bool(with_e) and bool(without) and all(cond_of(p) is False for p in with_e) and all(cond_of(p) is True or other_switch(p) for p in without) \
+            and any(cond_of(p) is True for p in without)
         res.add(f"labrea.computation.Computation.{op}:effect skipped exactly when LABREA.EFFECTS.DISABLED", ok, cmod.relpath, co.methods[op].lineno,
                 f"{len(with_e)} paths with the effect, {len(without)} without", nec)
     ds = repo.cls("Dataset")
